@@ -122,7 +122,10 @@ class _Canon(ast.NodeTransformer):
         for f in ("body", "orelse", "finalbody"):
             v = getattr(node, f, None)
             if isinstance(v, list) and v and isinstance(v[0], ast.stmt):
-                setattr(node, f, self._block(v))
+                blk = self._block(v)
+                if len(blk) > 1 and any(isinstance(x, ast.Pass) for x in blk) and not all(isinstance(x, ast.Pass) for x in blk):
+                    blk = [x for x in blk if not isinstance(x, ast.Pass)]          # a `pass` among other statements is noise
+                setattr(node, f, blk)
         return node
 
     def visit_If(self, node):
@@ -134,6 +137,9 @@ class _Canon(ast.NodeTransformer):
         if node.orelse and all(isinstance(x, ast.Pass) for x in node.body):
             t = node.test.operand if isinstance(node.test, ast.UnaryOp) and isinstance(node.test.op, ast.Not) else ast.UnaryOp(op=ast.Not(), operand=node.test)
             node = _loc(ast.If(test=t, body=node.orelse, orelse=[]), node)
+        # N17: `if not c: A else: B` -> `if c: B else: A` (both branches present, neither an elif chain)
+        if node.orelse and isinstance(node.test, ast.UnaryOp) and isinstance(node.test.op, ast.Not) and not (len(node.orelse) == 1 and isinstance(node.orelse[0], ast.If)):
+            node = _loc(ast.If(test=node.test.operand, body=node.orelse, orelse=node.body), node)
         b, o = node.body, node.orelse
         if len(b) == 1 and len(o) == 1:
             x, y = b[0], o[0]
@@ -185,7 +191,11 @@ class _Canon(ast.NodeTransformer):
         if isinstance(node.test, ast.Constant) and (isinstance(node.test.value, bool) or node.test.value is None):
             return node.body if node.test.value else node.orelse         # N12 for conditional expressions
         if isinstance(node.test, ast.UnaryOp) and isinstance(node.test.op, ast.Not):
-            return _loc(ast.IfExp(test=node.test.operand, body=node.orelse, orelse=node.body), node)     # `a if not c else b` -> `b if c else a`
+            node = _loc(ast.IfExp(test=node.test.operand, body=node.orelse, orelse=node.body), node)     # `a if not c else b` -> `b if c else a`
+        if isinstance(node.test, (ast.Name, ast.Attribute)) and _norm(node.test) == _norm(node.body):
+            return _loc(ast.BoolOp(op=ast.Or(), values=[node.body, node.orelse]), node)                 # `a if a else b` -> `a or b`
+        if isinstance(node.test, (ast.Name, ast.Attribute)) and _norm(node.test) == _norm(node.orelse):
+            return _loc(ast.BoolOp(op=ast.And(), values=[node.orelse, node.body]), node)                # `b if a else a` -> `a and b`
         return node
 
     def visit_With(self, node):
@@ -215,6 +225,9 @@ class _Canon(ast.NodeTransformer):
 
     def visit_Assign(self, node):
         self.generic_visit(node)
+        # `x = x` (left by inlining a helper whose result variable has the caller's name): nothing happens
+        if len(node.targets) == 1 and isinstance(node.targets[0], ast.Name) and isinstance(node.value, ast.Name) and node.targets[0].id == node.value.id:
+            return _loc(ast.Pass(), node)
         # N9: `x = A if c else x`  ->  `if c: x = A`   (and the mirrored form)
         if len(node.targets) == 1 and isinstance(node.targets[0], ast.Name) and isinstance(node.value, ast.IfExp):
             v, tname = node.value, node.targets[0].id
@@ -564,10 +577,31 @@ class _Rename(ast.NodeTransformer):
                 return _loc(copy.deepcopy(r), n)
         return n
 
-    def visit_FunctionDef(self, n):  # do not descend into nested defs that rebind the name
+    def visit_FunctionDef(self, n):
+        # a nested def sees the enclosing names it does not bind itself (parameters, assigned names not declared nonlocal/global)
+        own = {a.arg for a in ast.walk(n.args) if isinstance(a, ast.arg)}
+        shared = set()
+        for x in ast.walk(n):
+            if isinstance(x, (ast.Nonlocal, ast.Global)):
+                shared |= set(x.names)
+        for x in ast.walk(n):
+            if isinstance(x, ast.Name) and isinstance(x.ctx, (ast.Store, ast.Del)) and x.id not in shared:
+                own.add(x.id)
+        inner = {k: v for k, v in self.m.items() if k not in own}
+        if inner:
+            sub = _Rename(inner)
+            n.body = [sub.visit(s_) for s_ in n.body]
+            for x in ast.walk(n):
+                if isinstance(x, (ast.Nonlocal, ast.Global)):
+                    x.names = [inner[nm] if isinstance(inner.get(nm), str) else nm for nm in x.names]
         return n
 
-    visit_Lambda = visit_FunctionDef
+    def visit_Lambda(self, n):
+        own = {a.arg for a in ast.walk(n.args) if isinstance(a, ast.arg)}
+        inner = {k: v for k, v in self.m.items() if k not in own}
+        if inner:
+            n.body = _Rename(inner).visit(n.body)
+        return n
 
 
 class _Beta(ast.NodeTransformer):
@@ -954,7 +988,19 @@ class Inliner:
     def _body_of(self, callee, call, recv, kind, keep_names=()):
         if callee.name in self.stack or len(self.stack) >= 3:
             return _why(466)
-        if any(isinstance(x, (ast.Yield, ast.YieldFrom, ast.Nonlocal)) for s in callee.body for x in ast.walk(s)) and kind != "closure":
+        def _own_level(stmts):
+            for s_ in stmts:
+                if isinstance(s_, (ast.FunctionDef, ast.AsyncFunctionDef, ast.ClassDef)):
+                    continue
+                yield s_
+                for f_ in ("body", "orelse", "finalbody"):
+                    v_ = getattr(s_, f_, None)
+                    if isinstance(v_, list) and v_ and isinstance(v_[0], ast.stmt):
+                        yield from _own_level(v_)
+                for h_ in getattr(s_, "handlers", []) or []:
+                    yield from _own_level(h_.body)
+        # (a `nonlocal` inside a nested def of the callee names the callee's own locals, which move into the caller with it)
+        if any(isinstance(x, ast.Nonlocal) for x in _own_level(callee.body)) and kind != "closure":
             return _why(468)
         if any(isinstance(x, (ast.Yield, ast.YieldFrom)) for s in callee.body for x in ast.walk(s)):
             return _why(470)
@@ -1264,7 +1310,12 @@ class Inliner:
                 if b is None or b[0]:
                     return n
                 e = copy.deepcopy(e)
-                e = _Rename(b[1]).visit(e)
+                if isinstance(e, ast.Lambda):
+                    # a factory's result: its parameters are substituted inside the lambda body (the lambda's own parameters shadow)
+                    own_ = {a_.arg for a_ in e.args.args}
+                    e.body = _Rename({k_: v_ for k_, v_ in b[1].items() if k_ not in own_}).visit(e.body)
+                else:
+                    e = _Rename(b[1]).visit(e)
                 self.inlined.add(callee.name)
                 return _loc(e, n)
         for f, v in ast.iter_fields(s):
@@ -1283,6 +1334,14 @@ def _single_expr(callee):
     _guard_clauses(c)
     c = _Canon().visit(c)
     real = [x for x in c.body if not (isinstance(x, ast.Expr) and isinstance(x.value, ast.Constant))]
+    # a factory: `def inner(params): return E` + `return inner`  ==  `lambda params: E` (the factory's own parameters are free in E)
+    if len(real) == 2 and isinstance(real[0], ast.FunctionDef) and isinstance(real[1], ast.Return) and isinstance(real[1].value, ast.Name) and real[1].value.id == real[0].name \
+            and not real[0].decorator_list:
+        inner = real[0]
+        ia = inner.args
+        ie = _single_expr(inner)
+        if ie is not None and not (ia.vararg or ia.kwarg or ia.kwonlyargs or ia.defaults):
+            return ast.Lambda(args=ast.arguments(posonlyargs=[], args=[ast.arg(arg=p_.arg) for p_ in ia.posonlyargs + ia.args], kwonlyargs=[], kw_defaults=[], defaults=[]), body=ie)
     # `try: return A  except E: return B`  ==  `B if __raised__(E) else A` (an opaque test: which of the two happens is not known statically)
     if len(real) == 1 and isinstance(real[0], ast.Try) and not real[0].orelse and not real[0].finalbody and len(real[0].body) == 1 and isinstance(real[0].body[0], ast.Return) \
             and real[0].body[0].value is not None and real[0].handlers and all(len(h.body) == 1 and isinstance(h.body[0], ast.Return) and h.body[0].value is not None and h.name is None for h in real[0].handlers):
